@@ -348,8 +348,8 @@ impl Prop for C11 {
 	}
 	fn budget(&self, tier: Tier) -> (u64, u64) {
 		match tier {
-			Tier::Quick => (120_000, 75),
-			Tier::Thorough => (3_000_000, 900),
+			Tier::Quick => (400_000, 90),
+			Tier::Thorough => (6_000_000, 1200),
 		}
 	}
 
